@@ -267,6 +267,8 @@ EXT_SIGS = {
                      {"axis": None, "out": None, "overwrite_input": False, "keepdims": False}),
     "numpy.sum": (("a", "axis", "dtype", "out", "keepdims"), {"axis": None, "dtype": None, "out": None}),
     "numpy.dot": (("a", "b", "out"), {"out": None}),
+    "numpy.prod": (("a", "axis", "dtype", "out", "keepdims"), {"axis": None, "dtype": None, "out": None}),
+    "numpy.power": (("x1", "x2"), {}),
     "numpy.matmul": (("x1", "x2"), {}),
     "numpy.abs": (("x",), {}),
     "numpy.square": (("x",), {}),
@@ -705,6 +707,8 @@ class SymExec:
             return mk_call(F("numpy.square"), (a,), ())
         if isinstance(op, ast.Pow) and b == K(0.5):
             return mk_call(F("numpy.sqrt"), (a,), ())
+        if isinstance(op, ast.Pow):
+            return mk_call(F("numpy.power"), (a, b), ())
         return ("bin", type(op).__name__, a, b)
 
     def _name(self, name, st, module, depth):
@@ -804,9 +808,11 @@ class SymExec:
                 bound[n] = dflt[n]
         try:
             paths = self._paths(fmod, fn, bound, depth + 1)
-        except _NeedChoice:
-            return None
+        except (_NeedChoice, Undecidable):
+            return None  # not reducible: the call stays symbolic
         normal = [p for p in paths if p.outcome in ("return", "fall")]
+        if any(p.outcome == "return" and has_unknown(p.value) for p in normal):
+            return None
         if not normal:
             return None
         key = (id(e), depth)
